@@ -218,8 +218,7 @@ def runForms : List Form → List FnDef → List FnDef × List Obs
   | .assign c fd :: rest, cells =>
       runForms rest (if c < cells.length then cells.set c fd else cells)
   | .eval e :: rest, cells =>
-      let (cells', obs) := runForms rest cells
-      (cells', (cells, e) :: obs)
+      ((runForms rest cells).1, (cells, e) :: (runForms rest cells).2)
 
 /-- The cells a piece assigns (`set_bang` of the unit's analysis). -/
 def assignedIn : List Form → List Nat
@@ -227,33 +226,37 @@ def assignedIn : List Form → List Nat
   | .assign c _ :: rest => c :: assignedIn rest
   | _ :: rest => assignedIn rest
 
-/-- The table the unit's inliner sees while the piece is compiled: the cells that exist already are NOT
-visible as `define`s of this unit (entry `none`), the unit's own definitions are. -/
-def unitTable (base : Nat) (forms : List Form) : List (Option FnDef) :=
-  List.replicate base none ++ forms.filterMap fun | .define fd => some (some fd) | _ => none
+def countDefs : List Form → Nat
+  | [] => 0
+  | .define _ :: rest => countDefs rest + 1
+  | _ :: rest => countDefs rest
 
-/-- `fns` argument of `inline` for a unit: cells of earlier pieces appear as procedures that are never
-eligible (the policy excludes them), the unit's own definitions with their bodies. -/
-def unitFns (base : Nat) (forms : List Form) : List FnDef :=
-  (unitTable base forms).map fun | some fd => fd | none => { arity := 0, body := .const (.bool false) }
+/-- The cells a piece makes available to its own inliner (`inline_handle_define`): defined in it by a `define`,
+estimated size below the threshold, not assigned anywhere in the piece (`set_bang`).  `base` = number of cells
+that exist when the piece starts; the i-th `define` of the piece creates cell `base + i`. -/
+def pieceInlinable (thr : Nat) (base : Nat) (p : Piece) : List Nat :=
+  let defs := p.filterMap fun | .define fd => some fd | _ => none
+  (List.range defs.length).filterMap fun i =>
+    match defs[i]? with
+    | some fd => if size fd.body < thr && !(assignedIn p).contains (base + i) then some (base + i) else none
+    | none => none
 
-/-- Policy of a unit for the form that defines / is evaluated after cell `cur`: callees defined in this unit
-(`base ≤ f`), textually not later than `cur`, not assigned in this unit. -/
-def piecePolicy (base : Nat) (assigned : List Nat) (cur : Nat) (f : Nat) : Bool :=
-  decide (base ≤ f) && decide (f ≤ cur) && !assigned.contains f
+/-- A placeholder for the cells of earlier pieces in the unit's table: they are not `define`s of this unit
+(and the policy never selects them). -/
+def oldCell : FnDef := { arity := 0, body := .const (.bool false) }
 
-/-- Compile the forms of a piece with the unit-local inliner.  `next` = the cell the next `define` creates. -/
-def compileForms (ufns : List FnDef) (base : Nat) (assigned : List Nat) (thr : Nat) : Nat → List Form → List Form
+/-- Compile the forms of a piece with the unit-local inliner.  `tab` = what the inliner knows at this point
+of the text: a placeholder for every cell of earlier pieces, then the unit's own definitions read so far
+("only inline forwards": a call site is rewritten only when it comes after the `lambda` of the definition —
+which includes the procedure's own body).  The bodies copied are the original ones. -/
+def compileForms (thr : Nat) (inl : List Nat) : List FnDef → List Form → List Form
   | _, [] => []
-  | next, .define fd :: rest =>
-      .define (inlineFn ufns (piecePolicy base assigned next) thr fd) :: compileForms ufns base assigned thr (next + 1) rest
-  | next, .assign c fd :: rest =>
-      -- the right-hand side of a `set!` is an expression evaluated after the definitions before it
-      .assign c (inlineFn ufns (fun f => piecePolicy base assigned next f && decide (f < next)) thr fd)
-        :: compileForms ufns base assigned thr next rest
-  | next, .eval e :: rest =>
-      .eval (inline ufns (fun f => piecePolicy base assigned next f && decide (f < next)) thr 0 e)
-        :: compileForms ufns base assigned thr next rest
+  | tab, .define fd :: rest =>
+      .define (inlineFn (tab ++ [fd]) (fun f => inl.contains f) thr fd) :: compileForms thr inl (tab ++ [fd]) rest
+  | tab, .assign c fd :: rest =>
+      .assign c (inlineFn tab (fun f => inl.contains f) thr fd) :: compileForms thr inl tab rest
+  | tab, .eval e :: rest =>
+      .eval (inline tab (fun f => inl.contains f) thr 0 e) :: compileForms thr inl tab rest
 
 inductive Cfg where
   | plain                 -- no inlining
@@ -263,27 +266,14 @@ deriving Repr, Inhabited
 def compilePiece (cfg : Cfg) (base : Nat) (p : Piece) : Piece :=
   match cfg with
   | .plain => p
-  | .inlining thr => compileForms (unitFns base p) base (assignedIn p) thr base p
+  | .inlining thr => compileForms thr (pieceInlinable thr base p) (List.replicate base oldCell) p
 
 /-- Evaluate a history: every piece is compiled against the cells that exist when it starts. -/
 def runHistory (cfg : Cfg) : History → List FnDef → List Obs
   | [], _ => []
   | p :: rest, cells =>
-      let (cells', obs) := runForms (compilePiece cfg cells.length p) cells
-      obs ++ runHistory cfg rest cells'
-
-/-- The cells a piece makes available to its own inliner: defined in it, not assigned in it, small. -/
-def pieceInlinable (thr : Nat) (base : Nat) (p : Piece) : List Nat :=
-  let defs := p.filterMap fun | .define fd => some fd | _ => none
-  (List.range defs.length).filterMap fun i =>
-    match defs[i]? with
-    | some fd => if size fd.body < thr && !(assignedIn p).contains (base + i) then some (base + i) else none
-    | none => none
-
-def countDefs : List Form → Nat
-  | [] => 0
-  | .define _ :: rest => countDefs rest + 1
-  | _ :: rest => countDefs rest
+      (runForms (compilePiece cfg cells.length p) cells).2 ++
+        runHistory cfg rest (runForms (compilePiece cfg cells.length p) cells).1
 
 /-- The guard of `inline_history_partial`: **no piece assigns a cell that an earlier piece could inline**
 (`inl` = those cells so far, `base` = number of cells so far). -/
@@ -299,6 +289,12 @@ def Obs.value (o : Obs) (fuel : Nat) : Option Val := (evalIR o.1 fuel o.2 []).ma
 /-- Two observations are indistinguishable: they yield the same values (with whatever call depth each
 needs); in particular one is an error / diverges iff the other does. -/
 def Obs.Equiv (a b : Obs) : Prop := ∀ v, (∃ n, a.value n = some v) ↔ (∃ n, b.value n = some v)
+
+/-- Two runs made the same number of observations, pairwise indistinguishable. -/
+def ObsEquiv : List Obs → List Obs → Prop
+  | [], [] => True
+  | a :: as, b :: bs => a.Equiv b ∧ ObsEquiv as bs
+  | _, _ => False
 
 /-! ## (d) Configurations -/
 
